@@ -152,7 +152,7 @@ fn partial_decode_new_case<const N: usize>() {
     let mut bytes = BytesMut::from(&data[..]);
     bytes.truncate(len);
     let cid_len: usize = vk::any();
-    vk::assume(cid_len <= 20);
+    vk::assume(cid_len <= 4);
     let parser = FixedLengthConnectionIdParser::new(cid_len);
     let grease: bool = vk::any();
     // a supported-version Initial with an empty token and one with a token whose length field is the last byte
@@ -171,10 +171,10 @@ fn partial_decode_new_case<const N: usize>() {
     }
 }
 
-// @harness partial_decode_new_total_12 props=C03,C10 tier=thorough kind=proof timeout=1200 fn="PartialDecode::new / ProtectedHeader::decode" desc="for every datagram of 0..=12 bytes, every local CID length 0..=20 and either grease setting: decoding the unprotected header never panics or reads past the datagram (token length, CID lengths and payload length are all checked against what is left); on success packet + trailing data = the datagram and the header ends inside the packet"
+// @harness partial_decode_new_total_9 props=C03,C10 tier=thorough kind=bounded bound="datagrams of at most 9 bytes, local CID length at most 4" timeout=1200 fn="PartialDecode::new / ProtectedHeader::decode" desc="for every datagram of 0..=9 bytes, every local CID length 0..=4 and either grease setting: decoding the unprotected header never panics or reads past the datagram (token length, CID lengths and payload length are all checked against what is left); on success packet + trailing data = the datagram and the header ends inside the packet"
 #[cfg_attr(kani, kani::proof)]
-#[cfg_attr(kani, kani::unwind(24))]
+#[cfg_attr(kani, kani::unwind(12))]
 #[cfg_attr(verif_replay, test)]
-fn partial_decode_new_total_12() {
-    partial_decode_new_case::<12>();
+fn partial_decode_new_total_9() {
+    partial_decode_new_case::<9>();
 }
